@@ -3,13 +3,20 @@ from vlib import common as C
 from vlib import langsuite as L
 
 
-def run_one(prop, suite, tier, rule, assumptions, extra_thorough=(), gen=0, extra_always=(), twin_suites=(), claim=(), extra_stage=None):
+def run_one(prop, suite, tier, rule, assumptions, extra_thorough=(), gen=0, extra_always=(), twin_suites=(), claim=(), extra_stage=None, ctx=True):
     """extra_thorough: further suites run in the thorough tier; gen: number of generated programs whose
     result-level disagreements attributed to `prop` are reported too (thorough tier; 250 in the quick tier)."""
     from vlib import gensuite as G
     chk = C.Check(prop, tier)
     results = [L.run_suite(chk, suite, tier)]
     bad, n = L.validate_events(chk, results[0]["events_path"], suite)
+    if ctx:
+        rc = L.run_ctx(chk, suite, tier)
+        b2, n2 = L.validate_events(chk, rc["events_path"], suite + "_ctx")
+        chk.cov["context_twins"] = {"cases_incl_constant_and_repl_twins": rc["cases"], "outcomes": rc["counts"]}
+        results.append(rc)
+        bad += b2
+        n += n2
     for s in extra_always:
         r = L.run_suite(chk, s, tier)
         b2, n2 = L.validate_events(chk, r["events_path"], s)
